@@ -804,6 +804,43 @@ def rule_x7(F):
     return r
 
 
+def rule_x8(F):
+    """A script with a compile error never counts as checked: when the grammar has been parsed, `run_parser` asks the LEXER whether
+    anything is left, and leftover input - also a character that is no token at all - is a parse error.  The test must be made on
+    `Lexer::next` / `Lexer::peek` (which yield an invalid character as `Some(Err(..))`); `Parser::peek` maps a lexing error to `None`,
+    exactly like the end of input, so a stray `@` between two items would end the file silently: `roto check` says "All ok!" and the
+    test blocks after it never run."""
+    r = RuleResult("C19.X8", "leftover input after the grammar is a parse error, decided on the lexer itself (an invalid character does not end the file silently)", floor=1)
+    ps = [p for p in F.paths() if p.startswith("parser::") and hir.last(p) == "run_parser" and "{closure" not in p]
+    if not ps:
+        r.missing("parser::Parser::run_parser")
+        return r
+    b = F.body(ps[0])
+    defs = mir.Defs(b)
+    oks = set(mir.ok_exits(b, "Ok"))
+    gs = mir.gates(b, defs)
+    decided = []
+    for g in gs:
+        names = [c[1] for c in g["chain"]]
+        lex = [n for n in names if "parser::lexer::Lexer" in n and hir.last(n) in ("next", "peek", "peek_many")]
+        if not lex or g["family"] != "Option":
+            continue
+        some_r = set()
+        for x in g["good"]:
+            some_r |= mir.reachable_from(b, x) | {x}
+        none_r = set()
+        for x in g["bad"]:
+            none_r |= mir.reachable_from(b, x) | {x}
+        if oks and not (oks & some_r) and oks <= none_r:
+            decided.append(hir.last(lex[0]))
+    r.inst("run_parser end-of-input test", {"ok_exits": len(oks), "decided_by_lexer_call": decided})
+    if not decided:
+        r.bad(b.path, "leftover input not decided on the lexer", relfile(b.file), b.line,
+              "no test on Lexer::next / Lexer::peek stands between the parsed grammar and the successful exit of run_parser (Some -> error, None -> Ok): leftover input that is not a "
+              "valid token - a stray character between two items - ends the file silently, the rest of the script is never compiled and its test blocks never run")
+    return r
+
+
 def rules(ctx):
     F = ctx["F"]
-    return [rule_x1(F), rule_x2(F), rule_x3(F), rule_x4(F), rule_x5(F), rule_x6(F), rule_x7(F)]
+    return [rule_x1(F), rule_x2(F), rule_x3(F), rule_x4(F), rule_x5(F), rule_x6(F), rule_x7(F), rule_x8(F)]
